@@ -250,6 +250,14 @@ class Env:
                 # ... and somebody gave up waiting for an event: they are gone, nothing else
                 with anyio.move_on_after(0):
                     await ctx.resource_added.wait_event()
+            if h.idx % 3 == 1:
+                # ... and somebody's filter is broken (it raises for every event): that listener fails when it
+                # looks at what it received, the publisher and the other listeners notice nothing.  It subscribes
+                # BEFORE the listeners whose events are compared
+                def broken_filter(ev):
+                    raise ZeroDivisionError("broken filter")
+                h.bf_cm = ctx.resource_added.stream_events(broken_filter, max_queue_size=100000)
+                h.bf_it = await h.bf_cm.__aenter__()
             h.cm = ctx.resource_added.stream_events(max_queue_size=100000)
             h.it = await h.cm.__aenter__()
             # a listener that reads what it has received only at the very end
@@ -679,6 +687,7 @@ async def run_case(case):
                 else:
                     op = env.next_op()
             i += 1
+            case.setdefault("_trace", []).append(op)
             with anyio.fail_after(20):
                 out = await env.exec(op)
                 probe = await env.probe()
@@ -721,7 +730,7 @@ def main():
         except BaseException as e:  # noqa
             import traceback
             res.append({"backend": case["backend"], "seed": case.get("seed"), "steps": [],
-                        "crash": traceback.format_exc()[-2000:]})
+                        "ops": case.get("_trace", []), "crash": traceback.format_exc()[-2000:]})
     print("@@" + json.dumps({"results": res}))
 
 
